@@ -69,7 +69,7 @@ theorem repairJust_reqOK (l : Loop) (size : Nat → Nat) (cx : Ctx) (cr : ShardR
   intro m hm hver
   have hsh := hj.shard
   have hg' : l.group? cr.shard.shardId = some g := hsh ▸ hg
-  rcases hj.just with ⟨ht, hcci, _, _, _, d, hd, hgt⟩ | ⟨ht, _⟩ | ⟨ht, hcci, _, _, _, _, _, d, hd, hle⟩
+  rcases hj.just with ⟨ht, hcci, _, _, _, d, hd, hgt⟩ | ⟨ht, _⟩ | ⟨ht, hcci, _, _, _, _, _, ⟨d, hd, hle⟩, _⟩
   · have hlen := mirror_length l cr.shard g m hg' hu hm (by rw [hver, hcci]) (hids m hm) hmir
     have := hsize d hd
     refine ⟨fun h => (by rw [ht] at h; cases h), fun _ => ?_⟩
